@@ -1,4 +1,5 @@
 import NetVerif.Proofs.C12
+import NetVerif.Model.RFC9218Priority
 /-!
 # C13 — the RFC 9218 scheduler respects urgency and serves every ready stream
 
@@ -119,6 +120,15 @@ theorem toggle_flips {e e' : Env} {s s' : P9218} {r : Res} (hn : s.control.shift
   split at h
   · cases h; rfl
   · split at h <;> (cases h; rfl)
+
+/-- A `Pop` that returns a control frame leaves `prioritizeIncremental` (and every ring) unchanged: control
+traffic interleaved with stream frames does not disturb the alternation between the incremental and the
+non-incremental class. -/
+theorem control_pop_keeps_toggle {e : Env} {s : P9218} {f : Frame} {c : WQ} (h : s.control.shift = some (f, c)) :
+    s.pop e = (e, { s with control := c }, .frame f) ∧ (s.pop e).2.1.toggle = s.toggle ∧
+      (s.pop e).2.1.ring = s.ring := by
+  have : s.pop e = (e, { s with control := c }, .frame f) := by simp [P9218.pop, h]
+  rw [this]; exact ⟨rfl, rfl, rfl⟩
 
 /-- **Non-incremental streams are served to completion.**  (1) After serving stream `id` of a
 non-incremental class, `id` is the head of its ring; (2) a `Pop` that serves class `c` serves the ring's
@@ -505,5 +515,59 @@ example : ((List.range 6).map fun j => ((iter j (exEnv, exInc)).2.pop exEnv).2.2
 example : ServesAt (exEnv, exInc) 2 7 5 := ⟨[], [1, 3], by decide, by decide⟩
 example : ∀ j, j < 3 → SendableAt (exEnv, exInc) j 5 := by
   simp only [SendableAt]; decide
+
+/-! ## `parseRFC9218Priority` always yields a valid priority class
+
+The scheduler indexes `heads[urgency][incremental]` (an `[8][2]` array) with the parsed priority; the
+theorems above assume `urgency ≤ 7`, `incremental ≤ 1`.  On the model of `parseRFC9218Priority` over the
+C56 model of `httpsfv.ParseDictionary` this holds for every input string. -/
+
+open NetVerif.Model.RFC9218Priority in
+theorem applyMember_range (p : Nat × Nat) (cb : List Nat × List Nat × List Nat) (h : p.1 ≤ 7 ∧ p.2 ≤ 1) :
+    (applyMember p cb).1 ≤ 7 ∧ (applyMember p cb).2 ≤ 1 := by
+  unfold applyMember
+  split
+  · split
+    · split
+      · rename_i u _ hu; exact ⟨by simp only; omega, h.2⟩
+      · exact h
+    · exact h
+  · split
+    · split
+      · rename_i b _; exact ⟨h.1, by cases b <;> simp⟩
+      · exact h
+    · exact h
+
+open NetVerif.Model.RFC9218Priority in
+/-- **For every field value and both defaults the parsed priority lies in `[0,7] × {0,1}`**, and a field
+that does not parse as a dictionary yields the default. -/
+theorem parsePriority_range (s : List Nat) (cud : Bool) :
+    (parsePriority s cud).1.1 ≤ 7 ∧ (parsePriority s cud).1.2 ≤ 1 ∧
+      ((parsePriority s cud).2 = false → (parsePriority s cud).1 = defaultPrio cud) := by
+  have hd : (defaultPrio cud).1 ≤ 7 ∧ (defaultPrio cud).2 ≤ 1 := by cases cud <;> decide
+  have hfold : ∀ (l : List (List Nat × List Nat × List Nat)) (p : Nat × Nat), p.1 ≤ 7 ∧ p.2 ≤ 1 →
+      (l.foldl applyMember p).1 ≤ 7 ∧ (l.foldl applyMember p).2 ≤ 1 := by
+    intro l
+    induction l with
+    | nil => intro p h; exact h
+    | cons cb l ih => intro p h; exact ih _ (applyMember_range p cb h)
+  unfold parsePriority
+  split
+  · exact ⟨hd.1, hd.2, fun _ => rfl⟩
+  · rename_i cbs _
+    obtain ⟨h1, h2⟩ := hfold cbs _ hd
+    exact ⟨h1, h2, fun h => by cases h⟩
+
+/-- the class index `2*urgency + incremental` handed to the scheduler is below 16 -/
+theorem parsePriority_class_lt (s : List Nat) (cud : Bool) :
+    2 * (NetVerif.Model.RFC9218Priority.parsePriority s cud).1.1 +
+      (NetVerif.Model.RFC9218Priority.parsePriority s cud).1.2 < 16 := by
+  obtain ⟨h1, h2, _⟩ := parsePriority_range s cud
+  omega
+
+-- "u=-1" is ignored (urgency stays the default 3); "u=7, i"; a duplicated key (last one wins)
+example : NetVerif.Model.RFC9218Priority.parsePriority [117, 61, 45, 49] true = ((3, 0), true) := by decide
+example : NetVerif.Model.RFC9218Priority.parsePriority [117, 61, 55, 44, 32, 105] true = ((7, 1), true) := by decide
+example : NetVerif.Model.RFC9218Priority.parsePriority [117, 61, 49, 44, 32, 117, 61, 53] false = ((5, 1), true) := by decide
 
 end NetVerif.Proofs.C13
